@@ -141,20 +141,20 @@ func product() []qkey {
 
 func layers() []Layer {
 	return []Layer{
-		// narrow: three questions (two names, a case variant on another upstream), short/long upstream TTL, clock targets of the
-		// most recently obtained answer + pending refreshes, janitor, reload clone — the deepest layer (time semantics, LRU with max_cache_size=2)
-		{Name: "narrow", Keys: []qkey{{"a.", 1, "u1"}, {"b.", 1, "u1"}, {"A.", 1, "u2"}}, Ttls: []uint32{1, 120}, AllTgts: false, Slack: true, Jan: true, Clone: true, DepthQ: 4, DepthT: 6, InitTtl: 1},
+		// types: one name asked with six record types (A, AAAA, SOA, TXT, SVCB, HTTPS: every kind of cache-key construction,
+		// table fast path and numeric slow path) through one upstream, plus HTTPS as-is
+		{Name: "types", Keys: []qkey{{"a.", 1, "u1"}, {"a.", 28, "u1"}, {"a.", 6, "u1"}, {"a.", 16, "u1"}, {"a.", 64, "u1"}, {"a.", 65, "u1"}, {"a.", 65, "asis"}}, AllTgts: true, Jan: true, Clone: true, DepthQ: 2, DepthT: 4, InitTtl: 20},
+		// reload: an answer obtained with a long upstream TTL (120 s, longer than the fixed TTL of a.) is in the cache; then every
+		// continuation over two questions, all clock targets of every entry, janitor and reload clone
+		{Name: "reload", Keys: []qkey{{"a.", 1, "u1"}, {"b.", 1, "u1"}}, AllTgts: true, Slack: true, Jan: true, Clone: true, DepthQ: 3, DepthT: 5, InitTtl: 120,
+			Prefix: []Op{{Kind: "ask", Name: "a.", Qtype: 1, Scope: "u1"}}},
 		// lru: size-limit configurations only; the cache is pre-filled with three answers (one more than max_cache_size=2) by a
 		// fixed prefix, then every continuation over the narrow alphabet (no TTL switch, no clone)
 		{Name: "lru", Keys: []qkey{{"a.", 1, "u1"}, {"b.", 1, "u1"}, {"A.", 1, "u2"}}, AllTgts: false, Jan: true, Clone: true, DepthQ: 4, DepthT: 5, InitTtl: 1, OnlyMax: true,
 			Prefix: []Op{{Kind: "ask", Name: "a.", Qtype: 1, Scope: "u1"}, {Kind: "ask", Name: "b.", Qtype: 1, Scope: "u1"}, {Kind: "ask", Name: "A.", Qtype: 1, Scope: "u2"}}},
-		// reload: an answer obtained with a long upstream TTL (120 s, longer than the fixed TTL of a.) is in the cache; then every
-		// continuation over two questions, all clock targets of every entry, janitor and reload clone
-		{Name: "reload", Keys: []qkey{{"a.", 1, "u1"}, {"b.", 1, "u1"}}, AllTgts: true, Slack: true, Jan: true, Clone: true, DepthQ: 4, DepthT: 5, InitTtl: 120,
-			Prefix: []Op{{Kind: "ask", Name: "a.", Qtype: 1, Scope: "u1"}}},
-		// types: one name asked with six record types (A, AAAA, SOA, TXT, SVCB, HTTPS: every kind of cache-key construction,
-		// table fast path and numeric slow path) through one upstream, plus HTTPS as-is
-		{Name: "types", Keys: []qkey{{"a.", 1, "u1"}, {"a.", 28, "u1"}, {"a.", 6, "u1"}, {"a.", 16, "u1"}, {"a.", 64, "u1"}, {"a.", 65, "u1"}, {"a.", 65, "asis"}}, AllTgts: true, Jan: true, Clone: true, DepthQ: 3, DepthT: 4, InitTtl: 20},
+		// narrow: three questions (two names, a case variant on another upstream), short/long upstream TTL, clock targets of the
+		// most recently obtained answer + pending refreshes, janitor, reload clone — the deepest layer (time semantics, LRU with max_cache_size=2)
+		{Name: "narrow", Keys: []qkey{{"a.", 1, "u1"}, {"b.", 1, "u1"}, {"A.", 1, "u2"}}, Ttls: []uint32{1, 120}, AllTgts: false, Slack: true, Jan: true, Clone: true, DepthQ: 4, DepthT: 6, InitTtl: 1},
 		// star: a base question and every single-coordinate variant of it (case, other name, other type, other upstream, as-is), reject
 		{Name: "star", Keys: []qkey{{"a.", 1, "u1"}, {"A.", 1, "u1"}, {"b.", 1, "u1"}, {"a.", 28, "u1"}, {"a.", 1, "u2"}, {"a.", 1, "asis"}}, Rej: []qkey{{"a.", 1, ""}}, Ttls: []uint32{1, 20, 120}, AllTgts: true, Slack: true, Jan: true, Clone: true, DepthQ: 3, DepthT: 4, InitTtl: 20},
 		// full: the whole product {a., A., b.} x {A, AAAA} x {u1, u2, asis} (up to symmetry), reject of every family
